@@ -291,6 +291,11 @@ let run_case_inner (a : string array) : string =
     let e = get a.(1) in
     let m = with_model e (fun z ->
       Printf.sprintf "zone_ok=%s sorted=%s" (b2s (zone_ok z)) (b2s (table_sorted z))) in
+    (* the hypotheses of the end-to-end theorems (c01_whole; c02/c03/c06_whole), evaluated on the bytes *)
+    let (d1, d2) = (match Lazy.force e.spec with
+                    | Some (h, a) -> (wf_ast h a && c01_domain h a, whole_domain h a)
+                    | None -> (false, false)) in
+    let m = Printf.sprintf "%s c01_whole_domain=%s whole_domain=%s" m (b2s d1) (b2s d2) in
     out m m false
   | "zzmt" ->
     (* make_time of the implementation-level model vs zmake of the integer-level model *)
